@@ -16,7 +16,15 @@ claimed = {
  'C02': "one inductive step per vault message: supply delta = recorded principal delta, debt coins only to user/collector/burn, exact draw-down fee split",
  'C03': "gate lemma on the real ratio arithmetic (decimal grid, symbolic amounts/prices/MinCr) + per-handler plumbing of the gate's arguments, debt floor and ceiling",
  'C06': "amm.Deposit / amm.Withdraw contracts, all operands symbolic up to 10^40, plus pool-state grid",
- 'C09': "sweep window function: always a valid sub-range, never wider than the batch (safety/liveness of the full sweep: see DESIGN.md)",
+ 'C07': "FinishOrder/FinishMMOrder exact settlement from any live order, owner can always cancel outside the placement batch, CancelMMOrder cancels and refunds every indexed order for unrelated symbolic app/pair ids",
+ 'C09': "sweep window functions of both generations (valid sub-range, never wider than the batch, progress) and the real second-generation vault sweep: window visited completely, continues after a failing item, next offset stored",
+ 'C10': "second-generation Dutch auction: one bid from an arbitrary running auction (closed world; pays <= target, receives <= collateral, partial-bid bookkeeping, closing bid empties the auction), conversion lemma (posted price + one unit, monotone), price function falling",
+ 'C11': "limit bids (deposit/cancel/withdraw with arbitrary denomination and amount in the message) and one second-generation English bid from an arbitrary auction state",
+ 'C12': "vault and locker messages that name a position succeed only for the owner (pre-state owner vs message signer)",
+ 'C13': "locker books per message, collector net-fee booking for every fee-generating vault message and for the second-generation Dutch close",
+ 'C14': "vault and locker messages x circuit breaker / emergency shutdown / cool-off",
+ 'C15': "utils.ApplyFuncIfNoError all-or-nothing with a symbolic fault index; the second-generation vault sweep never panics for any counter / offset / batch size",
+ 'C20': "collector module: export + import into an empty store preserves every table written by the module's setters (closed world)",
  'C17': "one step of the price ring from any state satisfying the ring invariant, window sizes 1..6 (12 thorough): no panic, invariant, exact mean, activation, consumers fail when inactive",
  'C18': "lend reward / borrow interest / stable interest: non-negative, zero over zero time, monotone relative to a grid (sandwich) in time, principal and rate",
  'C19': "per-epoch split: allocations sum to the deposit and differ by at most one unit, epochs 1..8 (16 thorough)",
